@@ -134,15 +134,15 @@ let sx_of_nrec (r : nrec) : sx =
   L [ (match r.kind with KText -> A "T" | KCData -> A "C" | KElem q -> L [A "E"; sx_of_nat q]);
       sx_of_idopt r.parent; L (SL.map sx_of_nat r.kids); sx_of_idopt r.prev; sx_of_idopt r.next;
       sx_of_bool r.owner; sx_of_idopt r.sname ]
-let heap_of_sx = function
+(* the heap is built by the model's own DomCheck.lheap from the list of records, so that the checkers of DomCheck (proved
+   sound in proofs/DomCheckProofs.v) speak about exactly the heap the steps start from *)
+let heap_parts_of_sx = function
   | L [L recs; L ed; L sd] ->
-      let arr = Array.of_list (SL.map nrec_of_sx recs) in
-      let dflt = { kind = KText; parent = None; kids = []; prev = None; next = None; owner = false; sname = None } in
-      { nodes = (fun i -> let j = int_of_nat i in if j < Array.length arr then arr.(j) else dflt);
-        alloc = nat_of_int (Array.length arr);
-        edict = SL.map (function L [q; L l] -> (nat_of_sx q, SL.map nat_of_sx l) | _ -> failwith "edict") ed;
-        sdict = SL.map (function L [n; i] -> (nat_of_sx n, nat_of_sx i) | _ -> failwith "sdict") sd }
+      (SL.map nrec_of_sx recs,
+       SL.map (function L [q; L l] -> (nat_of_sx q, SL.map nat_of_sx l) | _ -> failwith "edict") ed,
+       SL.map (function L [n; i] -> (nat_of_sx n, nat_of_sx i) | _ -> failwith "sdict") sd)
   | _ -> failwith "heap"
+let heap_of_sx x = let (l, ed, sd) = heap_parts_of_sx x in DomCheck.lheap l ed sd
 let sx_of_heap (h : heap) : sx =
   let n = int_of_nat h.alloc in
   L [ L (SL.init n (fun i -> sx_of_nrec (h.nodes (nat_of_int i))));
@@ -191,15 +191,20 @@ let dispatch (f : string) (args : sx list) : sx =
   | "ns_prefix", [d; n; ns] ->
       let st0 = { nd = env_of_sx d; nsp = env_of_sx n } in
       sx_of_str (snd (NsTable.get_nsprefix st0 (str_of_sx ns)))
-  | "dom_init", [h] -> cur_heap := Some (heap_of_sx h); A "ok"
+  | "dom_init", [h] ->
+      let (l, ed, sd) = heap_parts_of_sx h in
+      cur_heap := Some (DomCheck.lheap l ed sd);
+      L [sx_of_bool (DomCheck.wf_ok l); sx_of_bool (DomCheck.idx_ok (nat_of_int 0) l ed sd); sx_of_bool (DomCheck.comp_ok l sd)]
   | "dom_step", [o] ->
       (match !cur_heap with
        | None -> failwith "no heap"
        | Some h ->
-           let r = Dom.step h (op_of_sx o) in
+           let o' = op_of_sx o in
+           let r = Dom.step h o' in
            let h' = Dom.heap_of r in
            cur_heap := Some h';
-           L [ (match r with ROk _ -> A "Ok" | RRaise (e, _) -> L [A "Raise"; sx_of_exn e]); sx_of_heap h' ])
+           L [ (match r with ROk _ -> A "Ok" | RRaise (e, _) -> L [A "Raise"; sx_of_exn e]); sx_of_heap h';
+               sx_of_bool (DomCheck.op_okb h o' && DomCheck.keeps_topb (nat_of_int 0) o') ])
   | "dom_construct", [q; sn; L steps; chk; req; par] ->
       (match !cur_heap with
        | None -> failwith "no heap"
@@ -296,6 +301,18 @@ let dispatch (f : string) (args : sx list) : sx =
   | "h_opentag", [t; L atts; b] -> sx_of_str (Html.h_opentag (str_of_sx t) (SL.map (function L [k; v] -> (str_of_sx k, str_of_sx v) | _ -> failwith "att") atts) (int_of_sx b <> 0))
   | "h_closetag", [t; b] -> sx_of_str (Html.h_closetag (str_of_sx t) (int_of_sx b <> 0))
   | "h_emptytag", [t; L atts] -> sx_of_str (Html.h_emptytag (str_of_sx t) (SL.map (function L [k; v] -> (str_of_sx k, str_of_sx v) | _ -> failwith "att") atts))
+  | "h_doc", [L evs] ->
+      let atts l = SL.map (function L [k; v] -> (str_of_sx k, str_of_sx v) | _ -> failwith "att") l in
+      let ev = function
+        | L [A "open"; t; L a; b] -> HtmlDoc.HOpen (str_of_sx t, atts a, int_of_sx b <> 0)
+        | L [A "close"; t; b] -> HtmlDoc.HClose (str_of_sx t, int_of_sx b <> 0)
+        | L [A "empty"; t; L a] -> HtmlDoc.HEmpty (str_of_sx t, atts a)
+        | L [A "data"; d] -> HtmlDoc.HData (str_of_sx d)
+        | L [A "nbsp"] -> HtmlDoc.HNbsp
+        | L [A "css"; d] -> HtmlDoc.HCss (str_of_sx d)
+        | _ -> failwith "hev" in
+      let es = SL.map ev evs in
+      L [sx_of_str (HtmlDoc.h_render es); sx_of_bool (HtmlDoc.wellnested es [] false); sx_of_bool (SL.for_all HtmlDoc.ev_ok es)]
   | "ls_load", [L es] ->
       let elem_of_sx = function
         | L [d; L refs] -> { LoadStyles.le_def = opt_of_sx str_of_sx d;
